@@ -461,6 +461,9 @@ func main() {
 
 	// 4. evidence
 	if replay == "" {
+		if merged.Samples == nil {
+			merged.Samples = []any{} // an inconclusive run has no samples; the schema wants a list
+		}
 		cov := map[string]any{
 			"evaluations":         merged.Evals,
 			"distinct_nontrivial": len(distinct),
